@@ -15,6 +15,7 @@ import (
 	"github.com/indexsupply/shovel/dig"
 	"github.com/indexsupply/shovel/eth"
 	"github.com/indexsupply/shovel/shovel/config"
+	"github.com/indexsupply/shovel/shovel/glf"
 	"github.com/indexsupply/shovel/wctx"
 	"pgregory.net/rapid"
 
@@ -342,6 +343,35 @@ func c12RowBuilderRun(d *refmodel.Decl, sblocks []*sim.Block, refSet map[string]
 	}
 	if df := model.Diff(dd, want, stored); df != "" {
 		return len(want), "emitted rows != rows the declared filters accept: " + df
+	}
+	// the restriction derived for eth_getLogs (whatever mix of argument and reference
+	// filters it was derived from) excludes no log that the model accepts
+	if d.Kind() == "log" {
+		var flt glf.Filter
+		if p := catch(func() { flt = dg.Filter() }); p != nil {
+			return len(want), fmt.Sprintf("Integration.Filter panicked: %v", p)
+		}
+		if addrs := flt.Addresses(); len(addrs) > 0 {
+			allowed := map[string]bool{}
+			for _, a := range addrs {
+				allowed[strings.ToLower(strings.TrimPrefix(a, "0x"))] = true
+			}
+			for _, r := range want {
+				for _, b := range sblocks {
+					if b.Num != r.BlockNum {
+						continue
+					}
+					for ti := range b.Txs {
+						for li := range b.Txs[ti].Logs {
+							l := &b.Txs[ti].Logs[li]
+							if int(l.Idx) == r.LogIdx && b.Txs[ti].Idx == r.TxIdx && !allowed[hex.EncodeToString(l.Addr)] {
+								return len(want), fmt.Sprintf("the address list sent with eth_getLogs %v excludes the log at block %d index %d from %x, which the declared filters accept", addrs, b.Num, l.Idx, l.Addr)
+							}
+						}
+					}
+				}
+			}
+		}
 	}
 	return len(want), ""
 }
